@@ -31,6 +31,9 @@ var (
 	c08R2 = randBytes(37, 70000)
 	c08T  = textBytes(32, 70000)
 	c08A  = bytes.Repeat([]byte{0xA5}, 1<<21+5)
+	c08N  = noiseBytes(33, 70000)
+	c08N2 = noiseBytes(34, 70000)
+	c08P  = phraseBytes(35, 30000)
 )
 
 func c08Payload(op string, k int) []byte {
@@ -50,6 +53,15 @@ func c08Payload(op string, k int) []byte {
 		return c08T
 	case "wA":
 		return c08A
+	case "wN":
+		// incompressible with planted repeats (stored raw after a compression attempt that used every
+		// codec); calls at odd positions write other bytes
+		if k%2 == 1 {
+			return c08N2
+		}
+		return c08N
+	case "wP":
+		return c08P
 	}
 	return nil
 }
@@ -218,7 +230,7 @@ func runC08(r *core.Run) {
 	if th {
 		depth = 5
 	}
-	r.Rule = fmt.Sprintf("all call sequences up to length %d over {Write(10 B), Write(empty), Write(70000 incompressible), Write(70000 text), Flush, Close} x {DictCap 4096+BufSize 273, DictCap 65536, default 8 MiB, DictCap+BufSize = 65536 / 67192 (length<=3)} x both matchers; thorough adds Write(2 MiB+5 run) at depth<=3; plus deviation-bounded (<=2) placement of Flush / empty Write / Close inside 12 small writes. Oracle: after every Flush sink+0x00 decodes (library Reader2 AND reference) to all data written; empty Flush emits nothing; after Close full decode with both; calls after Close fail and emit nothing. states = writer states {open-empty, open-pending, closed}; transitions = (state, call class) and chunk-automaton steps of the outputs", depth)
+	r.Rule = fmt.Sprintf("all call sequences up to length %d over {Write(10 B), Write(empty), Write(70000 incompressible), Write(70000 text), Flush, Close} x {DictCap 4096+BufSize 273, DictCap 65536, default 8 MiB, DictCap+BufSize = 65536 / 67192 (length<=3)} x both matchers; thorough adds Write(2 MiB+5 run) at depth<=3; all sequences up to length 3 (thorough 4) over {Write(recurring long phrases), Write(noise with planted repeats), Write(text), Flush}; plus deviation-bounded (<=2) placement of Flush / empty Write / Close inside 12 small writes. Oracle: after every Flush sink+0x00 decodes (library Reader2 AND reference) to all data written; empty Flush emits nothing; after Close full decode with both; calls after Close fail and emit nothing. states = writer states {open-empty, open-pending, closed}; transitions = (state, call class) and chunk-automaton steps of the outputs", depth)
 	alpha := []string{"w10", "w0", "wR", "wT", "f", "c"}
 	var cases []C08Case
 	cfgs := []L2Cfg{{DictCap: 4096, BufSize: 273}, {DictCap: 65536}, {DictCap: 4096, BufSize: 273, Matcher: 1}, {DictCap: 65536, Matcher: 1}}
@@ -266,6 +278,32 @@ func runC08(r *core.Run) {
 			}
 		}
 		rec2(nil)
+	}
+	// codec pollution: all sequences up to length 3 (thorough 4) over {Write(30000 recurring long
+	// phrases), Write(70000 noise with planted repeats), Write(70000 text), Flush}. The compression
+	// attempt on a noise chunk codes matches of every length / distance / rep class before the chunk
+	// is stored raw; the next compressed chunk shows whether any codec of the saved state was shared.
+	{
+		pd := 3
+		if th {
+			pd = 4
+		}
+		a3 := []string{"wP", "wN", "wT", "f"}
+		var rec3 func(pref []string)
+		rec3 = func(pref []string) {
+			if len(pref) > 0 {
+				for _, c := range []L2Cfg{{DictCap: 65536}, {}, {DictCap: 1 << 20, Matcher: 1}, {Props: true, LC: 0, LP: 0, PB: 0, DictCap: 65536}, {Props: true, LC: 1, LP: 2, PB: 4, DictCap: 1 << 17}} {
+					cases = append(cases, C08Case{Cfg: c, Hist: append(append([]string(nil), pref...), "c")})
+				}
+			}
+			if len(pref) == pd {
+				return
+			}
+			for _, a := range a3 {
+				rec3(append(pref, a))
+			}
+		}
+		rec3(nil)
 	}
 	r.Extra("history_cases", len(cases))
 	r.Sample(cases[len(cases)/2])
